@@ -71,6 +71,7 @@ type instrResult struct {
 	GoStmts      int               // rewritten go statements
 	ChanUse      []string          // informational
 	Extra        map[string]string // reserved
+	ChanFiles    int               // files whose channel operations were rewritten (seam 5)
 	MapRanges    int               // rewritten range-over-map statements
 	MapRangeNote string            // why the map-range seam is off, if it is
 }
@@ -127,16 +128,6 @@ func (in *instrumenter) walk(n ast.Node) {
 			in.loopTop(x.Body)
 		case *ast.RangeStmt:
 			in.loopTop(x.Body)
-		case *ast.SelectStmt:
-			in.unsupported(x.Pos(), "select statement (channels are not simulated)")
-		case *ast.SendStmt:
-			in.unsupported(x.Pos(), "channel send (channels are not simulated)")
-		case *ast.UnaryExpr:
-			if x.Op == token.ARROW {
-				in.unsupported(x.Pos(), "channel receive (channels are not simulated)")
-			}
-		case *ast.ChanType:
-			in.unsupported(x.Pos(), "channel type (channels are not simulated)")
 		}
 		return true
 	})
@@ -266,6 +257,7 @@ func instrumentTree(root, dst string, points bool) (*instrResult, error) {
 	sort.Strings(files)
 	// seam 4: which range statements iterate over maps? (go/types; optional)
 	var mr mapRanges
+	var facts *typeFacts
 	{
 		dirs := map[string]bool{}
 		for _, p := range files {
@@ -280,7 +272,8 @@ func instrumentTree(root, dst string, points bool) (*instrResult, error) {
 		if err != nil {
 			res.MapRangeNote = "map-range seam off: " + err.Error()
 		} else {
-			mr = found
+			mr = found.mapRange
+			facts = found
 		}
 	}
 	nMapRange := 0
@@ -356,6 +349,16 @@ func instrumentTree(root, dst string, points bool) (*instrResult, error) {
 				res.Swaps[path]++
 			}
 		}
+		chanUsed := usesChannels(f)
+		if chanUsed {
+			if facts == nil {
+				in.unsupported(f.Pos(), "channels need the type-checking pass, which failed: "+res.MapRangeNote)
+			} else {
+				cr := &chanRewriter{in: in, info: &chanInfo{rangeAt: facts.chanRange, lenCap: facts.chanLenCap}, n: res.ChanFiles * 1000}
+				cr.rewriteFile(f)
+				res.ChanFiles++
+			}
+		}
 		before := in.nextID
 		goBefore := res.GoStmts
 		mrBefore := nMapRange
@@ -390,7 +393,7 @@ func instrumentTree(root, dst string, points bool) (*instrResult, error) {
 				}
 			}
 		}
-		needRT := in.nextID > before || res.GoStmts > goBefore || nMapRange > mrBefore
+		needRT := in.nextID > before || res.GoStmts > goBefore || nMapRange > mrBefore || chanUsed
 		if needRT {
 			// add the runtime import
 			spec := &ast.ImportSpec{Name: ast.NewIdent("vsim__"), Path: &ast.BasicLit{Kind: token.STRING, Value: strconv.Quote(modPath + "/verifsim/rt")}}
